@@ -12,11 +12,14 @@ from ..util import (has_call, find_calls, assigned_value, const_str, unparse, kw
                     guards_of, call_tail, control_ancestors)
 from .. import mutate as M
 
+TECHNIQUE = 'static analysis: per-operator equivalence of bisect ranges and scan predicate in a symbolic LO/HI/BL/BR range algebra, multiplicity and order rules, CFG must-pass cache invalidation after row-adding statements, loop-carried state rule'
+
 EXPLANATION = ("Table-agreement rules over Table.where/_compare/insert/index: the Literal of where(), the {op: value} unpack list and "
                "the comparison arms of _compare name the same operators; per operator the bisect arm, normalised to "
                "LO/HI/BL(x)/BR(x), is the range form of the scan predicate for a sorted column; the 'in' ranges are taken over "
                "distinct sorted values; any method that appends rows while index columns are set re-sorts or clears the index; "
                "selections are built from ascending ranges or sorted.")
+EXPLANATION += ' R6: row-adding statements invalidate the cached index ranges on every path; R7: no per-keyword decision is carried into the next keyword.'
 
 RES = "coba/results/core.py"
 # operator -> (normalised bisect ranges, scan comparison)
